@@ -372,6 +372,79 @@ def _check_caches(r5, alg: Alg, ev: MatEval, f, v: Val, cname, how):
             r5.violate(PROP, f"{f.qualname}[{cname}]:lower-flag", f"{cname}.{f.name} passes {'a transposed' if transposed else 'the same'} triangular array but {'flips' if flipped else 'keeps'} the lower/upper flag: triangular solves then read the wrong triangle", node=f.node, file=f.file)
 
 
+BLOCK_CLASSES = ["MatrixProduct", "SquareMatrixProduct", "InvertibleMatrixProduct", "SquareBlockDiagonalMatrix", "SymmetricBlockDiagonalMatrix", "PositiveDefiniteBlockDiagonalMatrix", "BlockRowMatrix", "BlockColumnMatrix"]
+
+
+def rule_blocks(rep, program: Program, tier: str):
+    from ..blockeval import Blk, BlockEval, as_blk, den as bden, den_any
+
+    ns = (2, 3, 4) if tier == "thorough" else (2, 3)
+    r = rep.rule("R7", f"product and block classes for n in {ns} symbolic components: products, array, transpose, inverse, square root and scalar multiple agree with the block denotation", floor=60)
+    skipped = []
+    for cname in BLOCK_CLASSES:
+        k = program.cls(cname)
+        for member in ("_left_matrix_multiply", "_right_matrix_multiply", "_construct_array", "_construct_transpose", "_construct_inv", "_construct_sqrt", "_scalar_multiply"):
+            f = k.resolve(member)
+            if f is None or f.is_abstract:
+                continue
+            for n in ns:
+                alg = Alg()
+                be = BlockEval(program, k, alg, n, member)
+                if cname in ("SymmetricBlockDiagonalMatrix", "PositiveDefiniteBlockDiagonalMatrix"):
+                    for i in range(n):
+                        alg.sym.add(f"M{i+1}")
+                try:
+                    res = be.run(f)
+                    results = ([res] if res is not None else []) + be.extra_returns
+                    if not results:
+                        raise AnalysisError("no return value")
+                    D = be.self_den()
+                    for v in results:
+                        got = den_any(v, alg)
+                        if member == "_left_matrix_multiply":
+                            want, g = D.mul(be.other_repr(), alg), as_blk(got)
+                            what = "left product is not M @ other"
+                        elif member == "_right_matrix_multiply":
+                            want, g = be.other_repr().mul(D, alg), as_blk(got)
+                            what = "right product is not other @ M"
+                        elif member == "_construct_array":
+                            want, g = D, as_blk(got)
+                            what = "dense array differs from the matrix the products implement"
+                        elif member == "_construct_transpose":
+                            want, g = D.T(alg), as_blk(got)
+                            what = "transpose object does not denote M^T"
+                        elif member == "_construct_inv":
+                            g = as_blk(got).mul(D, alg)
+                            z = LinComb.zero()
+                            m_ = g.shape[0]
+                            want = Blk([[alg.ident() if i == j else z for j in range(m_)] for i in range(m_)])
+                            what = "inverse object times M is not the identity"
+                        elif member == "_construct_sqrt":
+                            sb = as_blk(got)
+                            g, want = sb.mul(sb.T(alg), alg), D
+                            what = "sqrt @ sqrt.T is not M"
+                        else:
+                            want = Blk([[x.scale(be.scalar) for x in row] for row in D.rows])
+                            g = as_blk(got)
+                            what = "scalar multiple does not denote c * M"
+                        ok = g.equal(want, alg)
+                        r.inst({"class": cname, "member": f.qualname, "n": n, "value": repr(g)[:120]})
+                        if not ok:
+                            r.violate(PROP, f"{f.qualname}[{cname}]:{what[:40]}", f"{cname} with {n} components: {what}: {f.qualname} evaluates to {g!r} but the class denotes {want!r}", node=f.node, file=f.file)
+                except AnalysisError as e:
+                    skipped.append(f"{cname}.{member}[n={n}]: {str(e)[:80]}")
+    seen, uniq = set(), []
+    for fd in r.findings:
+        if fd.key not in seen:
+            seen.add(fd.key)
+            uniq.append(fd)
+    r.findings = uniq
+    rep.extra["block_members_outside_algebra"] = skipped
+    if skipped:
+        r.notes.append(f"{len(skipped)} block/product member evaluations lie outside the grammar (listed in the evidence)")
+    return r
+
+
 # ----------------------------------------------------------------------
 # R2 parity
 PARITY_FAMILIES = [
@@ -445,5 +518,6 @@ def run(rep, program: Program, tier: str) -> None:
         "members based on comprehensions over blocks, LU factorisations, eigendecompositions of dense arrays and the hierarchical square root are outside the algebra (listed in coverage.members_outside_algebra); agreement with LAPACK numerics and conditioning are not decided",
     ]
     rule_algebra(rep, program)
+    rule_blocks(rep, program, tier)
     rule_parity(rep, program)
     c08.rule_r4(rep, program, prop=PROP, rule="R6")
